@@ -25,7 +25,8 @@ Inductive op2 :=
 | Withdraw2 (u : nat) (amount : Z)
 | Swap2 (u : nat) (i : Z) (x : Z) (max_spread : option Z)      (* i = index of the offer asset; the ask asset is the other one *)
 | Collect2
-| Donate2 (i : Z) (x : Z).
+| Donate2 (i : Z) (x : Z)
+| SetFees2 (f : fees).          (* the owner's UpdateConfig { pool_fees }: PoolFee::is_valid, then stored; ledgers and balances untouched *)
 
 Record eff2 := mkEff2 { f_user : t2; f_coll : t2; f_burned : t2 }.
 
@@ -113,6 +114,10 @@ Definition step2 (p : pool2) (o : op2) : outcome (pool2 * eff2) :=
   | Collect2 => collect2 p
   | Donate2 i x => Ok (mkPool2 (upd2 i (fun b => b + x) (q_bal p)) (q_fee p) (q_all p) (q_burn p) (q_supply p) (q_lp p) (q_lp_self p)
                                (q_amp p) (q_dec p) (q_fees p) (q_cw20 p), mkEff2 zero2 zero2 zero2)
+  | SetFees2 f => if poolfee_valid f
+                  then Ok (mkPool2 (q_bal p) (q_fee p) (q_all p) (q_burn p) (q_supply p) (q_lp p) (q_lp_self p)
+                                   (q_amp p) (q_dec p) f (q_cw20 p), mkEff2 zero2 zero2 zero2)
+                  else Err E_OTHER
   end.
 
 Definition apply_op2 (p : pool2) (o : op2) : pool2 * outcome eff2 :=
